@@ -189,7 +189,9 @@ func Range(start, end int64) Observable[int64] {
 	return NewUnsafeObservableWithContext(func(ctx context.Context, destination Observer[int64]) Teardown {
 		cursor := start
 
-		for cursor*sign < end*sign {
+		// the step is +1/-1 towards end, so the cursor reaches end exactly; comparing
+		// cursor*sign with end*sign would wrap for end == math.MinInt64
+		for cursor != end {
 			destination.NextWithContext(ctx, cursor)
 			cursor += sign
 		}
